@@ -522,6 +522,10 @@ class Interp(object):
             # in-place extend keeps aliasing
             cur[:] = v
             v = cur
+        elif isinstance(cur, bytearray) and isinstance(s.op, (ast.Add, ast.Mult)) and isinstance(v, (bytes, bytearray)):
+            # bytearray += / *= work in place: every alias (the caller's object included) sees the change
+            cur[:] = v
+            v = cur
         self.assign(s.target, v, st, fr, s)
         return st, set()
 
